@@ -1073,6 +1073,95 @@ func parProp(c ParCase, r *pbt.R) error {
 	return nil
 }
 
+// ---------------------------------------------------------------------------
+// named: the helpers are generic over ~string; a defined string type with methods of its own gets the same text
+
+// Sev and Fault are defined string types with the methods formatting verbs look for. A helper that builds its result
+// through fmt (or any other route that consults the method set) would print "Sev(...)" / "fault: ..." into it.
+type Sev string
+
+func (s Sev) String() string { return "Sev(" + string(s) + ")" }
+
+type Fault string
+
+func (f Fault) Error() string    { return "fault: " + string(f) }
+func (f Fault) GoString() string { return "Fault!" }
+
+type NamedCase struct {
+	Text  Str `json:"text"`
+	Token Str `json:"token"`
+	A     int `json:"a"`
+	B     int `json:"b"`
+}
+
+func namedRun[T ~string](c NamedCase, typ string) error {
+	text, tok, a, b := string(c.Text), string(c.Token), c.A, c.B
+	in := T(text)
+	type row struct {
+		name      string
+		got, want string
+	}
+	var rows []row
+	add := func(name string, got T, want string) { rows = append(rows, row{name, string(got), want}) }
+	var err error
+	_, err = try(func() string {
+		return fmt.Sprintf("string helpers on %s(%q), token %q, numbers %d %d", typ, text, tok, a, b)
+	}, func() string {
+		add("Substr", gogu.Substr(in, a, b), gogu.Substr(text, a, b))
+		add("ToLower", gogu.ToLower(in), gogu.ToLower(text))
+		add("ToUpper", gogu.ToUpper(in), gogu.ToUpper(text))
+		add("Capitalize", gogu.Capitalize(in), gogu.Capitalize(text))
+		add("CamelCase", gogu.CamelCase(in), gogu.CamelCase(text))
+		add("SnakeCase", gogu.SnakeCase(in), gogu.SnakeCase(text))
+		add("KebabCase", gogu.KebabCase(in), gogu.KebabCase(text))
+		size := len(text) + ((a%7)+7)%7
+		ptok := tok // the pad token must not be empty (see the pad sub-check)
+		if ptok == "" {
+			ptok = "*"
+		}
+		add("PadLeft", gogu.PadLeft(in, size, ptok), gogu.PadLeft(text, size, ptok))
+		add("PadRight", gogu.PadRight(in, size, ptok), gogu.PadRight(text, size, ptok))
+		add("Pad", gogu.Pad(in, size, ptok), gogu.Pad(text, size, ptok))
+		add("Wrap", gogu.Wrap(in, tok), gogu.Wrap(text, tok))
+		add("Unwrap(Wrap)", gogu.Unwrap(gogu.Wrap(in, tok), tok), gogu.Unwrap(gogu.Wrap(text, tok), tok))
+		add("WrapAllRune", gogu.WrapAllRune(in, tok), gogu.WrapAllRune(text, tok))
+		add("ReverseStr", gogu.ReverseStr(in), gogu.ReverseStr(text))
+		idx := a
+		ps, pt := gogu.SplitAtIndex(in, idx), gogu.SplitAtIndex(text, idx)
+		if len(ps) != len(pt) {
+			add("SplitAtIndex (number of parts)", T(fmt.Sprint(len(ps))), fmt.Sprint(len(pt)))
+		} else {
+			for i := range ps {
+				add(fmt.Sprintf("SplitAtIndex part %d", i), ps[i], pt[i])
+			}
+		}
+		return ""
+	})
+	if err != nil {
+		return err
+	}
+	for _, rw := range rows {
+		if rw.got != rw.want {
+			return fmt.Errorf("%s on the defined string type %s: text %q, token %q, numbers %d %d: got %q, the same call on a plain string gives %q", rw.name, typ, text, tok, a, b, rw.got, rw.want)
+		}
+	}
+	return nil
+}
+
+func namedProp(c NamedCase, r *pbt.R) error {
+	if !utf8.ValidString(string(c.Text)) || !utf8.ValidString(string(c.Token)) || len(c.Text) > 5000 {
+		return nil
+	}
+	if err := namedRun[Sev](c, "Sev (has a String method)"); err != nil {
+		return err
+	}
+	if err := namedRun[Fault](c, "Fault (has Error and GoString methods)"); err != nil {
+		return err
+	}
+	r.NonTrivialIf(len(c.Text) > 0, "non-empty text")
+	return nil
+}
+
 func TestProp(t *testing.T) {
 	// tiny live heap, millions of short-lived strings: collect less often
 	defer debug.SetGCPercent(debug.SetGCPercent(800))
@@ -1131,10 +1220,23 @@ func TestProp(t *testing.T) {
 			Enum: styleEnum, Gen: styleGen, Prop: styleProp, OutOfEnum: styleOut,
 			RapidQuick: 1000, RapidThorough: 10000,
 		},
+		&pbt.Check[NamedCase]{
+			Name: "named",
+			Rule: "the helpers are generic over ~string: Substr, ToLower, ToUpper, Capitalize, CamelCase, SnakeCase, KebabCase, PadLeft, PadRight, Pad, Wrap, Unwrap(Wrap), WrapAllRune, ReverseStr and SplitAtIndex instantiated with two defined string types that carry methods (String; Error and GoString) " +
+				"must return byte for byte what the same call returns on a plain string (differential between instantiations; what that text has to be is the business of the other sub-checks). Random valid-UTF-8 texts of up to 12 symbols (one in fourteen long), tokens of 0..3 symbols, offsets/sizes -3..12. Non-trivial = non-empty text.",
+			Gen: func(s pbt.Src, _ bool) NamedCase {
+				text := genText(s, 12, false)
+				return NamedCase{Text: Str(text), Token: Str(genToken(s, text, 0, false)), A: pbt.Range(s, -3, 12), B: pbt.Range(s, -3, 12)}
+			},
+			Prop: namedProp, OutOfEnum: func(NamedCase, bool) bool { return true },
+			RapidQuick: 600, RapidThorough: 10000,
+		},
 		&pbt.Check[ParCase]{
 			Name: "parallel",
 			Rule: "the string helpers are pure functions: 2..8 goroutines call one of ToLower, ToUpper, Capitalize, ReverseStr, CamelCase, SnakeCase, KebabCase, Pad/PadLeft, Wrap+Unwrap, WrapAllRune, Substr, SplitAtIndex at the same time (real scheduler), each on a mixed ASCII / multi-byte string of its own of 64..60000 bytes, four times; every answer must equal the answer of the same call running alone. Non-trivial = every case.",
-			Gen:        func(s pbt.Src, _ bool) ParCase { return ParCase{H: s.Intn(len(parNames)), Size: pbt.Pick(s, 100, 3000, 20000, 60000), W: s.Intn(7)} },
+			Gen: func(s pbt.Src, _ bool) ParCase {
+				return ParCase{H: s.Intn(len(parNames)), Size: pbt.Pick(s, 100, 3000, 20000, 60000), W: s.Intn(7)}
+			},
 			Prop:       parProp,
 			OutOfEnum:  func(ParCase, bool) bool { return true },
 			RapidQuick: 12, RapidThorough: 150,
